@@ -50,7 +50,7 @@ def run(tier, repo):
         for w in want:
             if w not in gs and not any(g[0] == w[0] for g in got):
                 rp.fail("PATH", "%s/%s/missing" % (m, "/".join(w[0]) or "-"), site(f), "reference path [%s] -> %s, %s does not exist in the code" % (", ".join(w[0]), list(w[1]), w[2]))
-    rp.floor("paths", total, 24)
+    rp.floor("paths", total, 12)
     # the one-shot payload parser must signal "fragment" by Incomplete / ErrorKind::Complete and by nothing else:
     # in the arms of the fragmentable content types the first thing that can fail on a short input is a streaming read
     # under complete(); a rejection that depends only on the declared record length must not come before those reads
